@@ -257,6 +257,7 @@ class Exec:
         self.trace = self.opts.get('trace', False)
         self.init_mode = False
         self.ifconv = self.opts.get('ifconv', True)
+        self.inits_run = set()
         self.no_memo = set(self.opts.get('no_memo', []))
         self.sat_cache = {}
         self.bv_cache = {}
@@ -754,9 +755,13 @@ class Exec:
     def setup(self):
         """allocate globals, run package initialisers concretely."""
         st = State()
+        inited = set()
+        for fid in self.prog.inits:
+            inited.add(self.prog.funcs[fid].get('pkg'))
         for name, g in self.prog.globals.items():
             t = self.T(g['t'])
-            oid = self.new_obj(st, list(self.zero_slots(t)), 'global ' + name, self.leafs(t))
+            slots = list(self.zero_slots(t))
+            oid = self.new_obj(st, slots, 'global ' + name, self.leafs(t))
             self.gobj[name] = oid
         self.harness = '<init>'
         init_ids = set(self.prog.inits)
@@ -771,6 +776,12 @@ class Exec:
                 raise EngineError('init %s forked' % fid)
             st = done[0]
         self.init_mode = False
+        # variables of packages whose initialiser never ran must never be read
+        ran = set(self.inits_run) | inited
+        for name, g in self.prog.globals.items():
+            if g.get('pkg') not in ran and not name.endswith('init$guard'):
+                oid = self.gobj[name]
+                st.heap[oid] = [POISON] * len(st.heap[oid])
         st.frames = []
         st.pc = []
         st.model = None
@@ -1105,6 +1116,10 @@ class Exec:
             if f is None:
                 raise PathEnd('panic', 'call of nil function')
             if isinstance(f, Poison):
+                if self.init_mode:
+                    self.set_result(fr, ins, POISON)
+                    self.advance(fr)
+                    return None
                 raise EngineError('call of poisoned function value')
             fid = f.fn
             binds = f.binds
@@ -1113,6 +1128,10 @@ class Exec:
             if recv is None:
                 raise PathEnd('panic', 'method call on nil interface')
             if isinstance(recv, Poison):
+                if self.init_mode:
+                    self.set_result(fr, ins, POISON)
+                    self.advance(fr)
+                    return None
                 raise EngineError('invoke on poisoned interface')
             fid = self.prog.method(recv.t, call['method'])
             if fid is None:
@@ -1164,6 +1183,8 @@ class Exec:
             self.advance(fr)
             return None
         fn = self.prog.funcs[fid]
+        if self.init_mode and name.endswith('.init'):
+            self.inits_run.add(fn.get('pkg'))
         if len(st.frames) > 200:
             raise EngineError('call depth exceeded')
         nf = Frame(fid, fn)
